@@ -166,6 +166,9 @@ class Check(Collector):
         ev_dir = os.environ.get("VERIF_EVIDENCE_DIR") or os.path.join(VERIF, "evidence")  # scratch runs (seeded copies) write elsewhere
         rep_dir = os.path.join(ev_dir, "reports")
         os.makedirs(rep_dir, exist_ok=True)
+        for old in os.listdir(rep_dir):   # replay files are those of this run only
+            if old.startswith(self.pid + "-"):
+                os.unlink(os.path.join(rep_dir, old))
         for v in real:
             fname = re.sub(r"[^A-Za-z0-9_.-]+", "_", "%s-%s" % (self.pid, v["key"]))[:150] + ".json"
             path = os.path.join(rep_dir, fname)
